@@ -20,8 +20,7 @@ theorem log_tick_shape (σ : State) (a : Ans) :
     repeat' (first | exact Or.inl rfl | exact Or.inr ⟨_, rfl⟩ | split)
   · exact Or.inl rfl
   · left; unfold tickStopRemove; repeat' (first | rfl | split)
-  · unfold tickIntSend accept enqueue
-    repeat' (first | exact Or.inl rfl | exact Or.inr ⟨_, rfl⟩ | split)
+  · exact Or.inl rfl
   · exact Or.inl rfl
   · exact Or.inl rfl
   · unfold tickDrainSend accept enqueue
@@ -50,6 +49,15 @@ theorem log_ptick_shape (σ : State) (a : Ans) :
   · exact Or.inl rfl
   · exact Or.inl rfl
 
+theorem log_itick_shape (σ : State) (a : Ans) :
+    (itick σ a).log = σ.log ∨ ∃ r, (itick σ a).log = σ.log ++ [r] := by
+  unfold itick
+  split
+  · unfold tickIntSend accept enqueue
+    dsimp only
+    repeat' (first | exact Or.inl rfl | exact Or.inr ⟨_, rfl⟩ | split)
+  · exact Or.inl rfl
+
 /-- a step that appends to the log is a micro-step; it registers nothing -/
 theorem log_step_shape (σ : State) (op : Op) :
     (step σ op).log = σ.log ∨
@@ -64,10 +72,15 @@ theorem log_step_shape (σ : State) (op : Op) :
       rcases log_ptick_shape σ a with h | h
       · exact Or.inl h
       · exact Or.inr ⟨h, ptick_registered σ a⟩
-    · left
-      exact step_ghost_simple State.log (fun _ _ => rfl) (fun _ _ => rfl) (fun _ _ => rfl) (fun _ _ => rfl)
-        (fun _ _ => rfl) (fun _ _ => rfl) (fun _ _ => rfl) (fun _ _ _ => rfl) (fun _ _ => rfl) (fun _ => rfl)
-        (fun _ _ => rfl) (fun _ _ _ => rfl) σ op (fun a e => ht ⟨a, e⟩) (fun a e => hp ⟨a, e⟩)
+    · by_cases hi : ∃ a, op = .itick a
+      · obtain ⟨a, e⟩ := hi; subst e
+        rcases log_itick_shape σ a with h | h
+        · exact Or.inl h
+        · exact Or.inr ⟨h, itick_registered σ a⟩
+      · left
+        exact step_ghost_simple State.log (fun _ _ => rfl) (fun _ _ => rfl) (fun _ _ => rfl) (fun _ _ => rfl) (fun _ _ => rfl) (fun _ _ => rfl)
+          (fun _ _ => rfl) (fun _ _ => rfl) (fun _ _ => rfl) (fun _ _ _ => rfl) (fun _ _ => rfl) (fun _ => rfl)
+          (fun _ _ => rfl) (fun _ _ _ => rfl) σ op (fun a e => ht ⟨a, e⟩) (fun a e => hp ⟨a, e⟩) (fun a e => hi ⟨a, e⟩)
 
 theorem log_prefix_run (σ : State) (ops : List Op) : ∃ l, (run σ ops).log = σ.log ++ l := by
   induction ops generalizing σ with
